@@ -84,7 +84,7 @@ func (m *Model) UpdatePositions(positions *traits.OpenClosePositions, opts ...re
 	opts = append(opts, resource.WithCreateIfAbsent())
 
 	for _, state := range positions.States {
-		_, err := m.positions.Update(directionToID(state.Direction), state, opts...)
+		_, err := m.positions.Update(directionToID(state.Direction), state, append(opts, keepDirection(state.Direction))...)
 		if err != nil {
 			return nil, err
 		}
@@ -98,11 +98,19 @@ func (m *Model) UpdatePosition(position *traits.OpenClosePosition, opts ...resou
 }
 
 func (m *Model) UpdatePositionN(dir traits.OpenClosePosition_Direction, position *traits.OpenClosePosition, opts ...resource.WriteOption) (*traits.OpenClosePosition, error) {
-	msg, err := m.positions.Update(directionToID(dir), position, opts...)
+	msg, err := m.positions.Update(directionToID(dir), position, append(opts[:len(opts):len(opts)], keepDirection(dir))...)
 	if err != nil {
 		return nil, err
 	}
 	return msg.(*traits.OpenClosePosition), nil
+}
+
+// keepDirection makes sure a stored position says which direction it is for, even when the update mask that created it
+// left the direction field out. Positions are keyed, listed and aggregated by their direction.
+func keepDirection(dir traits.OpenClosePosition_Direction) resource.WriteOption {
+	return resource.InterceptAfter(func(_, new proto.Message) {
+		new.(*traits.OpenClosePosition).Direction = dir
+	})
 }
 
 func (m *Model) PullPositions(ctx context.Context, ops ...resource.ReadOption) <-chan PullOpenClosePositionsChange {
